@@ -402,6 +402,16 @@ class ElemRef:
         self.vecref, self.idx = vecref, idx
 
 
+class LocalCell:
+    """a `&mut T` whose referent lives in a named slot of the *current* activation (used to pass `&mut` arguments and
+    closure captures by value-result: the slot is filled on entry and read back on return)"""
+    def __init__(self, key):
+        self.key = key
+
+    def __repr__(self):
+        return "LocalCell(%s)" % self.key
+
+
 class MapVal:
     """HashMap with abstract keys: a list of (key token, value) entries; key equality against a probe key is symbolic"""
     def __init__(self, entries):
@@ -473,8 +483,14 @@ class Interp:
     # -- entry
     def run(self, fn, args, pc=()):
         env = {}
-        for (loc, ty), v in zip(fn.args, args):
-            env[loc] = v
+        for i, ((loc, ty), v) in enumerate(zip(fn.args, args)):
+            if ty.startswith("&mut ") and not isinstance(v, (MutRef, ElemRef, MapElemRef, LocalCell)):
+                # a `&mut T` parameter refers to a slot of this activation: copies of the reference (e.g. a closure
+                # capturing `self`) then alias the same slot
+                env["arg#%d" % i] = v
+                env[loc] = LocalCell("arg#%d" % i)
+            else:
+                env[loc] = v
         outs = []
         self._exec(fn, "bb0", env, list(pc), outs, [], 0)
         return outs
@@ -573,11 +589,13 @@ class Interp:
                         outs.append(Outcome("panic", pc + extra_pc, msg=msg, trace=trace))
                         self._count()
                         continue
-                    env2 = fork_env(env)
-                    if wb:
+                    env2 = fork_env(wb["env"]) if (wb and "env" in wb) else fork_env(env)
+                    if wb and "writeback" in wb:
                         for ev in wb.get("events", []):
                             env2.setdefault("__events", []).append(ev)
                         for i, newval in wb["writeback"]:
+                            if newval is None:
+                                continue
                             if i in wb["refs"]:
                                 self.write_ref(wb["refs"][i], newval, env2)
                             elif i < len(arg_ops):
@@ -599,10 +617,12 @@ class Interp:
         """run another MIR body on the given argument values; result in the multi-outcome call format"""
         return [r[:4] for r in self.call_fn_full(target, args, depth)]
 
-    def call_fn_full(self, target, args, depth=1):
+    def call_fn_full(self, target, args, depth=1, cells=None):
         """as call_fn, returning outcomes also carry the callee's final parameter values and its events"""
         outs = []
         env = {}
+        if cells:
+            env.update(cells)
         for (loc, ty), v in zip(target.args, args):
             env[loc] = v
         self._exec(target, "bb0", env, [], outs, [], depth)
@@ -610,7 +630,7 @@ class Interp:
         for o in outs:
             if o.kind == "return":
                 finals = [o.env.get(loc) for (loc, ty) in target.args]
-                res.append((o.pc, o.value, "return", None, finals, list(o.events)))
+                res.append((o.pc, o.value, "return", None, finals, list(o.events), o.env))
             elif o.kind == "panic":
                 res.append((o.pc, None, "panic", o.msg))
         return res
@@ -654,25 +674,73 @@ class Interp:
 
     def call_inlined(self, target, args, depth):
         """inline a crate function.  `&mut` arguments use value-result semantics (sound because a &mut is unique):
-        the referent is copied in, and the callee's final value of the parameter is written back by the caller."""
-        refs = {}
-        args2 = []
+        the referent is copied into a slot of the callee's activation, and the slot's final value is written back
+        by the caller (through the original reference, or into the local that held the by-value model of it)."""
+        refs, cells, args2 = {}, {}, []
         for i, a in enumerate(args):
-            if isinstance(a, (MutRef, ElemRef, MapElemRef)):
+            is_mut_param = i < len(target.args) and target.args[i][1].startswith("&mut ")
+            if isinstance(a, (MutRef, ElemRef, MapElemRef, LocalCell)):
                 refs[i] = a
-                args2.append(self.deref(a, self.cur_env))
+                key = "arg#%d" % i
+                cells[key] = self.deref(a, self.cur_env)
+                args2.append(LocalCell(key))
+            elif is_mut_param:
+                key = "arg#%d" % i
+                cells[key] = a
+                args2.append(LocalCell(key))
             else:
                 args2.append(a)
-        res = self.call_fn_full(target, args2, depth + 1)
+        res = self.call_fn_full(target, args2, depth + 1, cells=cells)
         out = []
         for r in res:
             if len(r) >= 5 and r[2] == "return":
-                writeback = [(i, r[4][i]) for i, (loc, ty) in enumerate(target.args)
-                             if ty.startswith("&mut ") and i < len(r[4]) and r[4][i] is not None]
+                fenv = r[6] if len(r) > 6 else {}
+                writeback = [(i, fenv.get("arg#%d" % i)) for i in range(len(args)) if ("arg#%d" % i) in cells]
                 out.append((r[0], r[1], r[2], r[3], {"refs": refs, "writeback": writeback, "events": r[5] if len(r) > 5 else []}))
             else:
                 out.append(r[:4])
         return out
+
+    def run_closure_seq(self, clo, items, unpack=False):
+        """call a closure once per item, in order, threading the caller's state: captured `&mut` references are passed by
+        value-result, so mutations made by one call are seen by the next.  Returns [(pc, caller_env, [results])]."""
+        clo = self.deref(clo, self.cur_env)
+        f = self.closure_fn(clo)
+        states = [([], fork_env(self.cur_env), [])]
+        for item in items:
+            nxt = []
+            for pc, env, acc in states:
+                saved = self.cur_env
+                self.cur_env = env
+                cells, fields, caps = {}, {}, {}
+                for k, v in clo.fields.items():
+                    if isinstance(v, (MutRef, ElemRef, MapElemRef, LocalCell)):
+                        key = "cap#%s" % k
+                        cells[key] = self.deref(v, env)
+                        fields[k] = LocalCell(key)
+                        caps[key] = v
+                    else:
+                        fields[k] = v
+                clo2 = Agg(clo.ty, fields)
+                call_args = [clo2] + ([item.fields[x] for x in sorted(item.fields, key=int)] if unpack else [item])
+                res = self.call_fn_full(f, call_args, 2, cells=cells)
+                self.cur_env = saved
+                for r in res:
+                    if r[2] == "panic":
+                        nxt.append((pc + r[0], env, acc + [("panic", r[3])]))
+                        continue
+                    env2 = fork_env(env)
+                    fenv = r[6] if len(r) > 6 else {}
+                    for key, ref in caps.items():
+                        if key in fenv:
+                            self.write_ref(ref, fenv[key], env2)
+                    for ev in (r[5] if len(r) > 5 else []):
+                        env2.setdefault("__events", []).append(ev)
+                    nxt.append((pc + r[0], env2, acc + [("return", r[1])]))
+            states = nxt
+            if len(states) > 512:
+                raise Unsupported("closure sequence: too many paths")
+        return states
 
     def merge_results(self, res):
         """join the outcomes of a call into ONE symbolic value (ite over the path conditions) when they are all
@@ -756,7 +824,7 @@ class Interp:
         if place.startswith("(*") and place.endswith(")"):
             inner = place[2:-1].strip()
             cur = self._place(fn, inner, env) if not re.match(r"^_\d+$", inner) or inner in env else None
-            if isinstance(cur, (MutRef, ElemRef, MapElemRef)):
+            if isinstance(cur, (MutRef, ElemRef, MapElemRef, LocalCell)):
                 self.write_ref(cur, val, env)
             else:
                 self._assign(fn, inner, val, env)     # references modelled by value
@@ -816,6 +884,8 @@ class Interp:
         raise Unsupported("%s: place %s" % (fn.name, p))
 
     def deref(self, v, env):
+        if isinstance(v, LocalCell):
+            return self.deref(env[v.key], env) if isinstance(env[v.key], (MutRef, ElemRef, MapElemRef, LocalCell)) else env[v.key]
         if isinstance(v, MutRef):
             return self._place(v.fn, v.place, env)
         if isinstance(v, ElemRef):
@@ -828,7 +898,9 @@ class Interp:
 
     def write_ref(self, ref, val, env):
         """store through a &mut obtained earlier in this activation"""
-        if isinstance(ref, MutRef):
+        if isinstance(ref, LocalCell):
+            env[ref.key] = val
+        elif isinstance(ref, MutRef):
             self._assign(ref.fn, ref.place, val, env)
         elif isinstance(ref, ElemRef):
             vec = self.deref(ref.vecref, env)
